@@ -719,7 +719,7 @@ def compare(case, impl, model):
         # scales conditioned on the data: `lin` = size of the evaluated curves, `linc` = size of the CENTRED
         # curves; with δ = 512·eps·lin (what two-pass centring in floats can lose) a centred value is accepted
         # within rtol·linc + δ and a centred product within rtol·linc² + 2·linc·δ + δ², never relative to lin²
-        tiny = 1e-300
+        tiny = 1e-150
         lin = max(tiny, float(np.abs(C).sum(axis=1).max()) * float(np.abs(P).max()))
         Cc = C - C.mean(axis=0)
         linc = max(tiny, float(np.abs(Cc).sum(axis=1).max()) * float(np.abs(P).max()))
@@ -855,7 +855,7 @@ def _oracle_basis(case, impl):
     C = np.array([[float(F(x)) for x in r] for r in impl.get("C_used", case["C"])])
     N = len(C)
     X = np.array(impl["grid"])
-    tiny = 1e-300
+    tiny = 1e-150
     lin = max(tiny, float(np.abs(X).max()) if X.size else tiny)
     Xc0 = X - X.mean(axis=0) if X.size else X
     linc = max(tiny, float(np.abs(Xc0).max()) if X.size else tiny)
